@@ -139,6 +139,8 @@ def h_text(X, thorough):
             X.check(p is not None and p[0] + "/" + p[1] == ct and p[2].get("charset", "").lower().replace("-", "") == "utf8",
                     f"C32/charset-not-updated/{cs}", f"{cfg}: text not representable in {cs!r}, Content-Type now {after!r}")
             X.reach("charset-updated")
+    if header is None and _representable(text, "latin-1"):
+        X.check(after is None, "C32/charset-invented", f"{cfg}: representable in the latin-1 default but Content-Type {after!r} was added")
     if got is not None and text.startswith(BOM) and got == text[1:]:
         X.reach("bom-consumed")
     X.reach("end")
@@ -210,7 +212,7 @@ KERNEL = "props/chx/c32_kernel.py"
 
 def obligations(tier):
     thorough = tier == "thorough"
-    to = 60 if tier == "quick" else 180
+    to = 150 if tier == "quick" else 300  # CrossHair stops as soon as the path tree is exhausted (5-15 s unloaded); the slack is for a loaded machine
     cp = "every Unicode scalar value (1,112,064 code points, symbolic) followed by / preceded by one fixed ASCII character"
     obs = [
         Symx("text-roundtrip", lambda X: h_text(X, thorough),
